@@ -18,7 +18,9 @@ import math
 import numpy as np
 import sympy as sp
 
-from pyvc.sym import Sym
+from pyvc import paths
+from pyvc.sym import Sym, to_expr
+from pyvc.symarr import SymArr
 from .common import real_coxeter, path_tag
 
 LEVEL = "other"
@@ -323,8 +325,133 @@ def truncation_families(chk):
                         "samples": [{"family": "Family423", "a": 1.5, "c": 2.5}], "failures": len(fails), "exhaustive": False})
 
 
+def ngon_for_all_n(chk):
+    """_make_ngon and UniformPrismFamily.make_vertices for every n >= 3 (n symbolic: the real code runs with n the length of a
+    symbolic axis; numpy.linspace by its contract start + (stop - start) k / num)."""
+    from pyvc import externals as ext
+    from pyvc.sym import Sym
+    from pyvc.symarr import Dim
+    ld = chk.loader()
+    fam = ld.load("coxeter.families.common")
+    fkey = chk.function("coxeter.families.common", "_make_ngon")
+    DN = Dim("Nn", minimum=3)
+    z, area, al = sp.Symbol("z", real=True), sp.Symbol("area", positive=True), sp.Symbol("alpha", real=True)
+    n, k = DN.n, DN.k
+
+    def linspace(start, stop, num=50, endpoint=True, **kw):
+        if getattr(num, "dim", None) is not DN or endpoint is not False or kw:
+            raise paths.OutOfReach("numpy.linspace other than linspace(a, b, num=n, endpoint=False)")
+        a, b = to_expr(start), to_expr(stop)
+        return SymArr((DN,), np.array(Sym(a + (b - a) * DN.k / DN.n), dtype=object))
+
+    def run():
+        ext.HOOKS["numpy.linspace"] = linspace
+        return fam._make_ngon(DN.size, z=Sym(z), area=Sym(area), angle=Sym(al))
+    rho2 = area / (sp.Rational(1, 2) * n * sp.sin(2 * sp.pi / n))
+    th = lambda j: al + 2 * sp.pi * j / n          # noqa: E731
+    for p in chk.explore(fkey, run, assumptions=DN.facts()):
+        if p.kind != "return":
+            chk.path_raised(fkey, p) or chk.record("_make_ngon:returns_for_every_n>=3", fkey, "refuted", "path-enumeration",
+                                                   detail=f"{type(p.exc).__name__}: {p.exc}"[:200], model={}, replay=_replay_ngon())
+            continue
+        v = p.value
+        ok = isinstance(v, SymArr) and v.axes == (DN, 3)
+        chk.record("_make_ngon:one_vertex_per_k=0..n-1", fkey, "proved" if ok else "refuted", "shape", model={}, replay=_replay_ngon(), abstracted=not ok)
+        if not ok:
+            continue
+        X, Y, Z = [to_expr(c) for c in v.inner.reshape(-1)]
+        # (1) vertex k sits on the circle of radius rho at angle alpha + 2 pi k / n, at height z
+        r2 = sp.simplify(X**2 + Y**2)
+        c1 = sp.simplify(r2 - rho2) == 0 and not r2.has(k)
+        c2 = sp.simplify(X * sp.sin(th(k)) - Y * sp.cos(th(k))) == 0 and sp.simplify(X * sp.cos(th(k)) + Y * sp.sin(th(k)) - sp.sqrt(rho2)) == 0
+        chk.record("_make_ngon:vertices_at_equal_angular_steps_on_the_circle_of_the_requested_area", fkey, "proved" if c1 and c2 and sp.simplify(Z - z) == 0 else "refuted",
+                   "sympy-trig-normal-form", detail="x_k = rho cos(alpha + 2 pi k/n), y_k = rho sin(...), z_k = z, rho^2 = area / (n/2 sin(2 pi/n))", model={},
+                   replay=_replay_ngon(), abstracted=True)
+        # (2) shoelace area and edge lengths, successor of k is k+1 (k <= n-2) or 0 (k = n-1)
+        areas, edges = [], []
+        for case, kk, succ in (("inner", k, k + 1), ("wrap", n - 1, sp.Integer(0))):
+            x0, y0 = X.subs(k, kk), Y.subs(k, kk)
+            x1, y1 = X.subs(k, succ), Y.subs(k, succ)
+            areas.append(sp.simplify(sp.expand_trig(sp.Rational(1, 2) * (x0 * y1 - x1 * y0)) - area / n))
+            edges.append(sp.simplify(sp.expand_trig((x1 - x0)**2 + (y1 - y0)**2) - 2 * rho2 * (1 - sp.cos(2 * sp.pi / n))))
+        chk.record("_make_ngon:shoelace_area_is_the_requested_area", fkey, "proved" if all(a == 0 for a in areas) else "refuted", "sympy-trig-normal-form",
+                   detail="every one of the n fan triangles (origin, v_k, v_succ(k)) has area  area / n  (k <= n-2 and the closing edge k = n-1)", model={},
+                   replay=_replay_ngon(), abstracted=True)
+        chk.record("_make_ngon:all_edges_have_the_same_length", fkey, "proved" if all(e == 0 for e in edges) else "refuted", "sympy-trig-normal-form",
+                   detail="|v_succ(k) - v_k|^2 = 2 rho^2 (1 - cos(2 pi/n)) for every k", model={}, replay=_replay_ngon(), abstracted=True)
+    # ---- prism: modular over the contract of _make_ngon
+    fkp = chk.function("coxeter.families.common", "UniformPrismFamily.make_vertices")
+    calls = []
+
+    def ngon_stub(n_, z=0, area=1, angle=0):
+        calls.append((n_, z, area, angle))
+        return np.zeros((0, 3))
+
+    def run_p():
+        calls.clear()
+        old = fam._make_ngon
+        fam._make_ngon = ngon_stub
+        try:
+            fam.UniformPrismFamily.make_vertices(DN.size)
+        finally:
+            fam._make_ngon = old
+        return list(calls)
+    for p in chk.explore(fkp, run_p, assumptions=DN.facts()):
+        if p.kind != "return":
+            chk.path_raised(fkp, p)
+            continue
+        cs = p.value
+        ok = len(cs) == 2 and all(getattr(c[0], "dim", None) is DN for c in cs) and all(to_expr(c[3]) == 0 for c in cs)
+        if ok:
+            (z0, a0), (z1, a1) = [(to_expr(c[1]), to_expr(c[2])) for c in cs]
+            h = sp.simplify(z1 - z0)
+            t = sp.Symbol("t_tan_pi_over_n", positive=True)          # tan(pi/n) > 0 for n >= 3
+            hh, aa = h.subs(sp.tan(sp.pi / n), t), a0.subs(sp.tan(sp.pi / n), t)
+            vol = sp.simplify(aa * hh - 1) == 0 and sp.simplify(a0 - a1) == 0 and sp.simplify(z0 + z1) == 0
+            s2 = 4 * aa * t / n                     # edge^2 of a regular n-gon of area A: A = n s^2 / (4 tan(pi/n))
+            uni = sp.simplify(hh**2 - s2) == 0
+        else:
+            vol = uni = False
+        chk.record("UniformPrismFamily.make_vertices:two_congruent_n-gons_about_z=0_with_base_area_times_height=1", fkp, "proved" if ok and vol else "refuted",
+                   "sympy-normal-form", detail=f"{len(cs)} calls of _make_ngon", model={}, replay=_replay_ngon(), abstracted=True)
+        chk.record("UniformPrismFamily.make_vertices:lateral_edges_as_long_as_base_edges", fkp, "proved" if ok and uni else "refuted", "sympy-normal-form",
+                   detail="height^2 == 4 A tan(pi/n)/n", model={}, replay=_replay_ngon(), abstracted=True)
+
+
+def _replay_ngon():
+    """real _make_ngon / prism family for n = 3..40 against shoelace area, edge lengths and the hull volume"""
+    def replay(model):
+        from .common import real_coxeter
+        cox = real_coxeter()
+        import math
+        mk = cox.families.common._make_ngon
+        for n_ in range(3, 41):
+            for area_, ang in ((1.0, 0.0), (2.5, 0.3)):
+                try:
+                    V = np.asarray(mk(n_, z=0.25, area=area_, angle=ang), float)
+                except Exception as e:  # noqa: BLE001
+                    return True, {"n": n_, "raised": f"{type(e).__name__}: {e}"[:200]}
+                if V.shape != (n_, 3):
+                    return True, {"n": n_, "vertices": list(V.shape)}
+                A = 0.5 * sum(V[i, 0] * V[(i + 1) % n_, 1] - V[(i + 1) % n_, 0] * V[i, 1] for i in range(n_))
+                L = [math.dist(V[i], V[(i + 1) % n_]) for i in range(n_)]
+                if abs(A - area_) > 1e-9 * area_ or max(L) - min(L) > 1e-9 * max(L) or abs(math.atan2(V[0, 1], V[0, 0]) - ang) > 1e-9 or np.abs(V[:, 2] - 0.25).max() > 0:
+                    return True, {"n": n_, "area_requested": area_, "shoelace_area": float(A), "edge_lengths_min_max": [min(L), max(L)],
+                                  "angle_of_first_vertex": math.atan2(V[0, 1], V[0, 0])}
+            P = np.asarray(cox.families.UniformPrismFamily.make_vertices(n_), float)
+            vol = float(cox.shapes.ConvexPolyhedron(P).volume)
+            side, height = math.dist(P[0], P[1]), abs(P[n_, 2] - P[0, 2])
+            if abs(vol - 1) > 1e-9 or abs(side - height) > 1e-9 * height:
+                return True, {"family": "UniformPrismFamily", "n": n_, "volume": vol, "base_edge": side, "height": height}
+        return False, {}
+    return replay
+
+
 def run(chk):
-    chk.trusted += ["float64 arithmetic treated as exact real arithmetic in the guard proofs"]
+    chk.trusted += ["float64 arithmetic treated as exact real arithmetic in the guard proofs",
+                    "regular n-gon: area = n s^2 / (4 tan(pi/n)) for edge s; a right prism has volume base area x height (mathematics)",
+                    "numpy.linspace(a, b, num=n, endpoint=False)[k] = a + (b - a) k / n (assumed contract)"]
+    chk.section("ngon_and_prism_for_all_n", "coxeter.families.common::_make_ngon", lambda: ngon_for_all_n(chk))
     chk.section("truncation_family_guards", "coxeter.families.plane_shape_families::Family323Plus.get_shape", lambda: guards(chk))
     fk = chk.function("coxeter.families.common", "_make_ngon")
     common = chk.loader().load("coxeter.families.common")
